@@ -8,6 +8,7 @@ import (
 	"os"
 	"path/filepath"
 	"sort"
+	"strings"
 	"time"
 )
 
@@ -69,6 +70,9 @@ type Finding struct {
 	Key         string `json:"key"`
 	What        string `json:"what"`
 	WhyNotFixed string `json:"why_not_fixed,omitempty"`
+	// Observed, when set, must occur in the failing obligation's detail: the finding is this particular failure of
+	// the obligation, any other way of failing it is a violation
+	Observed string `json:"observed,omitempty"`
 }
 type Fixed struct {
 	Property string `json:"property"`
@@ -130,7 +134,7 @@ func (r *Report) Finish(verifDir string, known *Known) int {
 			discharged++
 			continue
 		}
-		if _, ok := knownSet[o.Key]; ok {
+		if f, ok := knownSet[o.Key]; ok && (f.Observed == "" || strings.Contains(o.Detail, f.Observed)) {
 			knownHit = append(knownHit, o)
 		} else {
 			viol = append(viol, o)
